@@ -198,12 +198,13 @@ Theorem C17_cancel_closes_listener :
   lis_open s = true -> step v k s LAfterClose = Some (s_lis_open false s).
 Proof. exact cancel_enables_close. Qed.
 Print Assumptions C17_cancel_closes_listener.
+(* (counted within one call of serve: for continuations without LReServe) *)
 Theorem C17_serve_bounded_after_close :
-  forall v k ls s s', v_raw_err v = false -> lis_open s = false -> run v k s ls = Some s' ->
+  forall v k ls s s', v_raw_err v = false -> ~ In LReServe ls -> lis_open s = false -> run v k s ls = Some s' ->
   count_serve ls + serve_left (sp s') <= serve_left (sp s) /\ count_serve ls <= 8 /\ lis_open s' = false.
 Proof.
-  intros v k ls s s' Hv Hl H. destruct (serve_bounded v k Hv ls s s' Hl H) as [A B].
-  split; [exact A|]. split; [exact (serve_bounded_8 v k ls s s' Hv Hl H)|exact B].
+  intros v k ls s s' Hv Hn Hl H. destruct (serve_bounded v k Hv ls s s' Hn Hl H) as [A B].
+  split; [exact A|]. split; [exact (serve_bounded_8 v k ls s s' Hv Hn Hl H)|exact B].
 Qed.
 Print Assumptions C17_serve_bounded_after_close.
 Theorem C17_serve_progress :
@@ -239,6 +240,34 @@ Theorem C17_ended_exchange_needs_no_mutex :
                    (forall d, d <> c -> get s' d = get s d).
 Proof. exact ended_exchange_leaves_handling. Qed.
 Print Assumptions C17_ended_exchange_needs_no_mutex.
+
+(* serving the SAME Server value again (LReServe: after a serve that was ended by cancelling its context
+   has returned, and not after Shutdown) is a step of the LTS: every theorem of this file is about runs
+   that may contain it, and none of the invariants says which call of serve accepted a connection.  The
+   step keeps the tracked set, the counter and every connection, so Shutdown still reaches the connections
+   of the earlier call (C17_shutdown_returned_nil, C17_shutdown_replies_complete,
+   C17_no_exchange_after_graceful_return apply as they stand). *)
+Theorem C17_reserve_keeps_tracked_connections :
+  forall k s s', step GuardNow k s LReServe = Some s' ->
+  conns s' = conns s /\ count s' = count s /\ sd s' = sd s /\ shut s' = false /\ mu s' = mu s /\
+  sp s' = SStart /\ lis_open s' = true /\ cancelled s' = false /\ upto s' = length (conns s).
+Proof. exact reserve_keeps_tracked. Qed.
+Print Assumptions C17_reserve_keeps_tracked_connections.
+(* comparison: serve() allocating Server.activeConnections afresh on every call (variant MapReset) --
+   Shutdown returns nil at once while a started handler has no reply and the old connection stays open *)
+Theorem C17_map_reset_refuted :
+  exists s x, reach MapReset cfg_none s /\ sd s = SdReturned ENil /\ get s 0 = Some x /\
+              ph x = PInHandler /\ owed x = [0] /\ replied x = 0 /\ sock x = true /\ inmap x = false /\ count s = 1%Z.
+Proof. exact map_reset_loses_connections. Qed.
+Print Assumptions C17_map_reset_refuted.
+Example C17_reserve_shutdown_waits :
+  exists s1, run GuardNow cfg_none init reserve_prefix = Some s1 /\
+    step GuardNow cfg_none s1 LSdReturn = None /\
+    exists s2 x, run GuardNow cfg_none s1
+                   [LSdCas 0; LSdLoad 0; LSdPassEnd; LHandlerEnd 0 true; LReplyWrite 0 true; LHandleEnd 0; LConnCtxExit 0;
+                    LConnLeave 0; LSdRetry; LSdCas 0; LSdLoad 0; LSdClose 0; LSdReturn] = Some s2 /\
+      sd s2 = SdReturned ENil /\ get s2 0 = Some x /\ replied x = 1 /\ owed x = [] /\ sock x = false /\ inmap x = false.
+Proof. exact now_reserve_shutdown_waits. Qed.
 
 (* orderings the accounting and the graceful shutdown rest on (and which the trace validation
    therefore enforces on the real server): trackConn(c,true) precedes the next Accept; the state atom
